@@ -236,13 +236,16 @@ static void GC_Rem_Ptr(struct GC* gc, var ptr) {
   
   if (gc->nslots is 0) { return; }
   
-  /* Deleted while waiting in a sweep's list: finalise it now */
+  /* Deleted while waiting in a sweep's list: finalise it now. Its memory
+  ** is released with the rest of the list (see GC_Sweep); an entry that
+  ** was finalised already carries bit 0 and is left alone. */
   for (size_t i = 0; i < gc->freenum; i++) {
     if (gc->freelist[i] is ptr) {
-      gc->freelist[i] = NULL;
-      dealloc(destruct(ptr));
+      gc->freelist[i] = (var)((uintptr_t)ptr | 1);
+      destruct(ptr);
       return;
     }
+    if (gc->freelist[i] is (var)((uintptr_t)ptr | 1)) { return; }
   }
   
   uint64_t i = GC_Hash(ptr) % gc->nslots;
@@ -477,12 +480,26 @@ void GC_Sweep(struct GC* gc) {
   GC_Resize_Less(gc);
   gc->mitems = gc->nitems + gc->nitems / 2 + 1;
   
+  /* Finalise everything first and release the memory afterwards: while
+  ** the destructors of this sweep run - they may allocate, and they may
+  ** delete objects of this same list - no address of the list is handed
+  ** out again, so a late del() of an object already finalised here cannot
+  ** hit a new object that took its place. A finalised entry keeps its
+  ** place in the list with bit 0 set. */
+  for (size_t i = 0; i < gc->freenum; i++) {
+    var item = gc->freelist[i];
+    if (item and not ((uintptr_t)item & 1)) {
+      gc->freelist[i] = (var)((uintptr_t)item | 1);
+      CELLO_VERIF_POINT(CELLO_VP_GC_FINALISE, item);
+      destruct(item);
+    }
+  }
+  
   for (size_t i = 0; i < gc->freenum; i++) {
     var item = gc->freelist[i];
     if (item) {
       gc->freelist[i] = NULL;
-      CELLO_VERIF_POINT(CELLO_VP_GC_FINALISE, item);
-      dealloc(destruct(item));
+      dealloc((var)((uintptr_t)item & ~(uintptr_t)1));
     }
   }
   
